@@ -194,6 +194,8 @@ func genC02(m *M, budget int) {
 
 // genC05: Equal / IsIdentity over all relation classes, both orders.
 func genC05(m *M, budget int) {
+	m.corpusElements("C05")
+	budget += m.events
 	lamPairs := [][2]string{{"one", "random"}, {"random", "one"}, {"one", "one"}, {"random", "two"}, {"", ""},
 		{"limb_struct", "one"}, {"one", "limb_struct"}, {"limb_struct", "mont_window"}}
 	off := m.rng.Intn(1000)
@@ -258,11 +260,88 @@ func genC05(m *M, budget int) {
 			m.EEqual(1, 0)
 			m.EIsIdentity(0)
 		}
+		if m.raw && c%3 == 1 {
+			// two representations of ONE point scaled so that a cross product of the comparison (X1*Z2 or Y1*Z2) has a
+			// boundary / structured STORED form: the product's final subtraction decides what the limb comparison sees
+			x, y := m.randPoint()
+			t, cls := m.resultTarget(bigP)
+			t = mulmod(t, rInvP, bigP)
+			l1 := m.lambda("random")
+			coord := x
+			if m.rng.Intn(2) == 0 {
+				coord = y
+			}
+			den := mulmod(coord, l1, bigP)
+			if t.Sign() != 0 && coord.Sign() != 0 && m.rng.Intn(2) == 0 {
+				// the other operand affine (Z = 1): its side of the comparison is the scaled coordinate ITSELF, the other side a
+				// genuine product with the same value
+				l := mulmod(t, new(big.Int).ModInverse(coord, bigP), bigP) // coord * l = t
+				m.class("rep:coordinate_stored_" + cls + "_vs_affine")
+				m.ESetRaw(0, mulmod(x, l, bigP), mulmod(y, l, bigP), l)
+				m.putPoint(1, x, y, "one")
+				m.EEqual(0, 1)
+				m.EEqual(1, 0)
+				m.ENegate(1)
+				m.EEqual(0, 1)
+			} else if t.Sign() != 0 && den.Sign() != 0 {
+				l2 := mulmod(t, new(big.Int).ModInverse(den, bigP), bigP) // coord*l1*l2 = t
+				m.class("rep:cross_product_stored_" + cls)
+				m.ESetRaw(0, mulmod(x, l1, bigP), mulmod(y, l1, bigP), l1)
+				m.ESetRaw(1, mulmod(x, l2, bigP), mulmod(y, l2, bigP), l2)
+				m.EEqual(0, 1)
+				m.EEqual(1, 0)
+				m.ENegate(1)
+				m.EEqual(0, 1)
+			}
+		}
+		if c%3 == 2 {
+			// two DIFFERENT points with one coordinate in common whose other stored coordinates differ by a structured
+			// pattern (equal limb differences, a single limb, ...): limb-wise comparisons that fold the limbs wrongly
+			for try := 0; try < 200; try++ {
+				dm := m.limbStruct()
+				d := mulmod(new(big.Int).Mod(dm, bigP), rInvP, bigP) // value whose stored form is the pattern
+				if d.Sign() == 0 {
+					continue
+				}
+				var x1, y1, x2, y2 *big.Int
+				if m.rng.Intn(2) == 0 { // same y: x2 = beta x1, x2 - x1 = d
+					x1 = mulmod(d, new(big.Int).ModInverse(new(big.Int).Sub(beta, one), bigP), bigP)
+					y1 = curveY(x1)
+					if y1 == nil {
+						continue
+					}
+					x2, y2 = mulmod(x1, beta, bigP), y1
+				} else { // same x: y2 = -y1, y2 - y1 = d
+					y1 = mulmod(new(big.Int).Sub(bigP, d), new(big.Int).ModInverse(two, bigP), bigP)
+					px, py := pointWithY(y1)
+					if px == nil {
+						continue
+					}
+					x1, y1, x2, y2 = px, py, px, new(big.Int).Sub(bigP, py)
+				}
+				// keep only pairs whose stored forms differ by the pattern as a bit pattern too (no carries across limbs)
+				s1, s2 := mulmod(x1, bigR, bigP), mulmod(x2, bigR, bigP)
+				if x1.Cmp(x2) == 0 {
+					s1, s2 = mulmod(y1, bigR, bigP), mulmod(y2, bigR, bigP)
+				}
+				if new(big.Int).Xor(s1, s2).Cmp(new(big.Int).Mod(dm, bigP)) != 0 {
+					continue
+				}
+				m.class("rel:structured_stored_difference")
+				m.putPoint(0, x1, y1, "one")
+				m.putPoint(1, x2, y2, "one")
+				m.EEqual(0, 1)
+				m.EEqual(1, 0)
+				break
+			}
+		}
 	}
 }
 
 // genC04: the encoders on elements reached in different ways, and the round trip through Decode.
 func genC04(m *M, budget int) {
+	m.corpusElements("C04")
+	budget += m.events
 	k := 0
 	for m.events < budget {
 		m.reset()
@@ -472,6 +551,8 @@ func (m *M) priorReceiver(r int) {
 var hexMangles = []string{"upper", "odd", "nonhex", "space", "0x", "empty"}
 
 func genC03(m *M, budget int) {
+	m.corpusElements("C03")
+	budget += m.events
 	forms := []string{"any", "unmarshal", "comp", "unc", "hex"}
 	for m.events < budget {
 		m.reset()
@@ -689,6 +770,12 @@ func genC01(m *M, nFull, nSmall int) {
 		"word_structure", "top_bit_set", "random", "mont_window", "mont_near_const", "mont_window"}
 	smallClasses := []string{"zero", "one", "two", "three", "small", "small", "sparse", "pow2"}
 	i := 0
+	if nFull == 0 { // with the small scalars (several histories per trace file)
+		m.corpusElements("C01")
+	}
+	if nFull > 0 {
+		m.corpusLadder()
+	}
 	for done := 0; done < nFull; done++ {
 		m.reset()
 		m.putElemClass(0, elemClasses[i%len(elemClasses)])
